@@ -835,14 +835,82 @@ func (e *env) doSleep() {
 	e.observe("RUnit", t, false)
 }
 
+// resolveRedist computes the amount for a Redistribute request "R:<j>:<c>" such
+// that the first transaction takes the j largest usable outputs (0: all of them)
+// and is left with the change c (0, 1, fpi-1, fpi, fpi+1, big; fpi = fee of one
+// input = feePerByte*241) after o.Outputs outputs and the fee.
+func (e *env) resolveRedist(o opSpec, fpb types.Currency, t time.Duration) types.Currency {
+	parts := strings.Split(o.Amount, ":")
+	fallback := parseCur("3" + "00000000000000000000")
+	if len(parts) != 3 {
+		return fallback
+	}
+	j, _ := strconv.Atoi(parts[1])
+	exp, _ := e.expected(t)
+	vals := make([]types.Currency, 0, len(exp))
+	for _, v := range exp {
+		vals = append(vals, v)
+	}
+	sort.Slice(vals, func(a, b int) bool { return vals[a].Cmp(vals[b]) > 0 })
+	if j <= 0 || j > len(vals) {
+		j = len(vals)
+	}
+	if j == 0 {
+		return fallback
+	}
+	var sum types.Currency
+	for _, v := range vals[:j] {
+		sum = sum.Add(v)
+	}
+	k := min(max(o.Outputs, 1), 10)
+	var txn types.V2Transaction
+	for i := 0; i < k; i++ {
+		txn.SiacoinOutputs = append(txn.SiacoinOutputs, types.SiacoinOutput{Address: e.addr})
+	}
+	fpi := fpb.Mul64(241)
+	fee := fpi.Mul64(uint64(j)).Add(fpb.Mul64(e.cm.TipState().V2TransactionWeight(txn)))
+	one := types.NewCurrency64(1)
+	var c types.Currency
+	switch parts[2] {
+	case "0":
+	case "1":
+		c = one
+	case "fpi-1":
+		if !fpi.IsZero() {
+			c = fpi.Sub(one)
+		}
+	case "fpi":
+		c = fpi
+	case "fpi+1":
+		c = fpi.Add(one)
+	default:
+		c = fpi.Mul64(3).Add(parseCur("1" + "00000000000000000000"))
+	}
+	if sum.Cmp(fee.Add(c)) <= 0 {
+		return fallback
+	}
+	rest := sum.Sub(fee).Sub(c)
+	amount := rest.Div64(uint64(k))
+	// the remainder of the division would be added to the change: only exact targets are of use
+	if !amount.Mul64(uint64(k)).Equals(rest) || amount.IsZero() {
+		return fallback
+	}
+	return amount
+}
+
 func (e *env) doRedist(o opSpec) (failed bool) {
 	t := e.begin()
-	amount := e.resolve(o.Amount, t)
 	fpb := parseCur(o.FeePerB)
+	cs := e.cm.TipState()
+	var amount types.Currency
+	if strings.HasPrefix(o.Amount, "R:") {
+		amount = e.resolveRedist(o, fpb, t)
+	} else {
+		amount = e.resolve(o.Amount, t)
+	}
 	exp, _ := e.expected(t)
 	spent, created := e.poolView()
 	outstanding := e.outstanding(t)
-	cs := e.cm.TipState()
 	feeOut := make([]string, 11)
 	for k := 0; k <= 10; k++ {
 		var txn types.V2Transaction
@@ -890,6 +958,43 @@ func (e *env) doRedist(o opSpec) (failed bool) {
 					e.fail("redistribute-conservation", "%s: transaction %d has inputs worth %s, outputs %s + fee %s", what, i, curStr(sum), curStr(outSum), curStr(txn.MinerFee))
 				}
 			}
+			// where the change (inputs - outputs*amount - fee, what conservation demands) lies
+			// relative to the fee of one input
+			var inSum types.Currency
+			for _, id := range sel {
+				inSum = inSum.Add(e.known[id])
+			}
+			nAmt := 0
+			for _, so := range txn.SiacoinOutputs {
+				if so.Value.Equals(amount) && nAmt < 10 {
+					nAmt++
+				}
+			}
+			if len(txn.SiacoinOutputs) > 0 && nAmt == len(txn.SiacoinOutputs) && nAmt > min(o.Outputs, 10) {
+				nAmt-- // a change output that happens to equal the amount
+			}
+			fpi := fpb.Mul64(241)
+			if need := amount.Mul64(uint64(nAmt)).Add(txn.MinerFee); inSum.Cmp(need) >= 0 {
+				ch := inSum.Sub(need)
+				one := types.NewCurrency64(1)
+				switch {
+				case ch.IsZero():
+					e.stats["redist:change=0"]++
+				case ch.Equals(one):
+					e.stats["redist:change=1H"]++
+				case !fpi.IsZero() && ch.Add(one).Equals(fpi):
+					e.stats["redist:change=feePerInput-1"]++
+				case !fpi.IsZero() && ch.Equals(fpi):
+					e.stats["redist:change=feePerInput"]++
+				case ch.Equals(fpi.Add(one)):
+					e.stats["redist:change=feePerInput+1"]++
+				case ch.Cmp(fpi) < 0:
+					e.stats["redist:change<feePerInput"]++
+				default:
+					e.stats["redist:change>feePerInput"]++
+				}
+			}
+			e.stats["redist:tx:feePerByte="+curStr(fpb)]++
 			f := &fundedTx{v2: true, v2txn: txn, toSignV2: toSign[i], basis: basis, inputs: sel, lo: t, hi: hi}
 			e.funded = append(e.funded, f)
 			rs = append(rs, fmt.Sprintf("mk_rtx %s %s %s %s", nlist(e.aids(sel)), zint(len(txn.SiacoinOutputs)), zlit(outSum), zlit(txn.MinerFee)))
